@@ -675,12 +675,17 @@ impl<'tcx> Cx<'tcx> {
                     let t = tcx.type_of(did).instantiate_identity().skip_norm_wip();
                     let mut s =
                         format!("{{\"path\":{},\"ty\":{}", js(&self.path(did)), js(&self.ty(t)));
-                    if tcx.generics_of(did).is_empty()
-                        && (t.is_integral() || t.is_bool() || t.is_char() || t.is_floating_point())
-                    {
+                    if tcx.generics_of(did).is_empty() && matches!(kind, DefKind::Const { .. }) {
                         if let Ok(v) = tcx.const_eval_poly(did) {
-                            if let Some(sc) = v.try_to_scalar_int() {
-                                let _ = write!(s, ",\"bits\":\"{}\"", sc.to_bits_unchecked());
+                            if t.is_integral() || t.is_bool() || t.is_char() || t.is_floating_point() {
+                                if let Some(sc) = v.try_to_scalar_int() {
+                                    let _ = write!(s, ",\"bits\":\"{}\"", sc.to_bits_unchecked());
+                                }
+                            }
+                            let is_str = matches!(t.kind(), ty::Ref(_, inner, _) if inner.is_str());
+                            if is_str || t.is_integral() || t.is_bool() || t.is_char() || t.is_floating_point() {
+                                let shown = format!("{}", mir::Const::Val(v, t));
+                                let _ = write!(s, ",\"val\":{}", js(&shown));
                             }
                         }
                     }
